@@ -22,6 +22,69 @@ type c08Case struct {
 	Got     string `json:"with_options_value,omitempty"`
 }
 
+// docProbes derives probes from the document itself: points at some of its
+// positions (touching its extreme coordinates and vertices) and its rectangle.
+func docProbes(objs []geojson.Object, rect geometry.Rect) []geojson.Object {
+	var out []geojson.Object
+	add := func(p geometry.Point) {
+		if len(out) < 8 && p.X == p.X && p.Y == p.Y {
+			out = append(out, geojson.NewPoint(p))
+		}
+	}
+	for _, o := range objs {
+		switch v := o.(type) {
+		case *geojson.LineString:
+			n := v.Base().NumPoints()
+			for _, i := range []int{0, n / 3, n / 2, n - 1} {
+				if i >= 0 && i < n {
+					add(v.Base().PointAt(i))
+				}
+			}
+		case *geojson.Polygon:
+			if e := v.Base().Exterior; e != nil {
+				n := e.NumPoints()
+				best := 0
+				for i := 0; i < n; i++ { // the vertex with the largest y: an extreme of the box
+					if e.PointAt(i).Y > e.PointAt(best).Y {
+						best = i
+					}
+				}
+				for _, i := range []int{best, 0, n / 2} {
+					if i >= 0 && i < n {
+						add(e.PointAt(i))
+					}
+				}
+			}
+		}
+	}
+	if rect.Min.X == rect.Min.X && rect.Max.X == rect.Max.X {
+		out = append(out, geojson.NewRect(rect), geojson.NewPoint(rect.Max), geojson.NewPoint(geometry.Point{X: rect.Min.X, Y: rect.Max.Y}))
+	}
+	return out
+}
+
+// docAnswers evaluates the predicates against the document-derived probes.
+func docAnswers(o geojson.Object, ps []geojson.Object) []byte {
+	out := make([]byte, len(ps))
+	for i, p := range ps {
+		var b byte
+		if o.Contains(p) {
+			b |= 1
+		}
+		if o.Intersects(p) {
+			b |= 4
+		}
+		if p.Within(o) {
+			b |= 16
+		}
+		if p.Intersects(o) {
+			b |= 32
+		}
+		out[i] = b
+	}
+	return out
+}
+
 type obs struct {
 	json    string
 	rect    geometry.Rect
@@ -104,6 +167,19 @@ func c08Doc(c *mon.Ctx, text string, i int) {
 		if !allValid {
 			c.Count("docs_with_invalid_object")
 		}
+		hasNaN := false
+		for _, o := range bobjs {
+			switch v := o.(type) {
+			case *geojson.Point:
+				if p := v.Base(); p.X != p.X || p.Y != p.Y {
+					hasNaN = true
+				}
+			case *geojson.SimplePoint:
+				if p := v.Base(); p.X != p.X || p.Y != p.Y {
+					hasNaN = true
+				}
+			}
+		}
 		nKids, nPts := 0, 0
 		for _, o := range bobjs {
 			if col, ok := o.(geojson.Collection); ok {
@@ -118,6 +194,8 @@ func c08Doc(c *mon.Ctx, text string, i int) {
 				}
 			}
 		}
+		dps := docProbes(bobjs, bo.rect)
+		dbase := docAnswers(base, dps)
 		r := c.SubRng("opts", i)
 		thr := func(n int) int { return []int{0, 1, n, n + 1, 64, 2}[r.Intn(6)] }
 		mkOpts := func(kindSel int) (geojson.ParseOptions, string) {
@@ -186,7 +264,13 @@ func c08Doc(c *mon.Ctx, text string, i int) {
 				bad("json", bo.json, oo.json)
 			}
 			if string(oo.ans) != string(bo.ans) {
-				bad("predicate-answers", fmt.Sprint(bo.ans), fmt.Sprint(oo.ans))
+				c08AnswersDiffer(c, text, name, &po, bo.ans, oo.ans, hasNaN, bad)
+			}
+			if !hasNaN {
+				if dgot := docAnswers(o, dps); string(dgot) != string(dbase) {
+					c.Count("doc_probe_differences")
+					bad("predicate-answers-at-own-vertices", fmt.Sprint(dbase), fmt.Sprint(dgot))
+				}
 			}
 			if !sameRect(oo.rect, bo.rect) || oo.empty != bo.empty || oo.valid != bo.valid {
 				bad("rect-empty-valid", fmt.Sprint(bo.rect, bo.empty, bo.valid), fmt.Sprint(oo.rect, oo.empty, oo.valid))
@@ -229,6 +313,40 @@ func c08Doc(c *mon.Ctx, text string, i int) {
 			}
 		}
 	})
+}
+
+// c08AnswersDiffer classifies a difference between the predicate answers of
+// the default-options parse and of the parse under other options.
+func c08AnswersDiffer(c *mon.Ctx, text, optName string, po *geojson.ParseOptions, base, got []byte, hasNaN bool, bad func(what, b, g string)) {
+	cs := c08Case{Text: text, Options: optName, What: "predicate-answers", Base: fmt.Sprint(base), Got: fmt.Sprint(got)}
+	if hasNaN {
+		// F25: a null ordinate (NaN) in a point makes rectangles and the child index inconsistent
+		c.KnownOrViolation("F25", "predicate-answers", "answers change with the options on a document holding a null (NaN) ordinate", cs)
+		return
+	}
+	// F26: only containment answers against probes with extent differ, and the
+	// geometry index configuration differs from the default one
+	ps := probes()
+	onlyContainment := true
+	for i := range base {
+		d := base[i] ^ got[i]
+		if d == 0 {
+			continue
+		}
+		if d&0b100100 != 0 { // an intersects answer changed
+			onlyContainment = false
+		}
+		switch ps[i].(type) {
+		case *geojson.Point, *geojson.SimplePoint:
+			onlyContainment = false
+		}
+	}
+	geomIndexDiffers := po.IndexGeometry != 64 || po.IndexGeometryKind != geometry.QuadTree
+	if onlyContainment && geomIndexDiffers {
+		c.KnownOrViolation("F26", "predicate-answers", "a contains/within answer depends on the geometry index configuration", cs)
+		return
+	}
+	bad("predicate-answers", fmt.Sprint(base), fmt.Sprint(got))
 }
 
 func c08Run(c *mon.Ctx) {
